@@ -178,6 +178,7 @@ def main(argv=None):
     seed = a.seed if a.seed is not None else int(os.environ.get('VERIF_SEED', '0') or 0)
     tier = a.tier if a.tier in ('quick', 'thorough') else 'quick'
     pid = a.pid.upper()
+    run = None
     try:
         mod = importlib.import_module('harness.checks.%s' % pid.lower())
         run = Run(pid, tier, seed)
@@ -195,9 +196,27 @@ def main(argv=None):
                     pass
             mod.check(run)
         rc = run.finish()
-    except Exception as e:  # machinery failure
+    except Exception as e:
         traceback.print_exc()
-        print('MACHINERY-FAILURE property=%s %s' % (pid, str(e)[:300]))
+        frames = traceback.extract_tb(e.__traceback__)
+        lib = [f for f in frames if (os.sep + 'graphslam' + os.sep) in f.filename and (os.sep + 'harness' + os.sep) not in f.filename]
+        if lib and not isinstance(e, (MemoryError, RecursionError)):
+            # The exception was raised INSIDE the library on input that the unchanged library handles (every check passes on the unchanged tree
+            # without reaching this handler): that is the library's behaviour, hence a verdict -- not a failure of the machinery.
+            msg = 'the library raised %s at %s:%d (%s) while the check was running' % (type(e).__name__, os.path.basename(lib[-1].filename), lib[-1].lineno, str(e)[:200])
+            try:
+                run.violation({'outcome': 'library-exception', 'exception': type(e).__name__}, msg, {'traceback': traceback.format_exc()[-4000:]})
+                run.notes['aborted_by_library_exception'] = True
+                run.finish()                      # writes the evidence file and prints the VIOLATION line(s)
+            except Exception:  # noqa  (evidence could not be written: still a verdict)
+                os.makedirs(REPLAY, exist_ok=True)
+                path = os.path.join(REPLAY, '%s-exception.json' % pid)
+                with open(path, 'w') as f:
+                    json.dump({'property': pid, 'key': {'outcome': 'library-exception'}, 'message': msg, 'traceback': traceback.format_exc()[-4000:]}, f, indent=1)
+                print('   ' + msg)
+                print('VIOLATION property=%s replay=%s' % (pid, path))
+            sys.exit(1)
+        print('MACHINERY-FAILURE property=%s %s' % (pid, str(e)[:300]))   # machinery failure
         sys.exit(2)
     sys.exit(rc)
 
